@@ -55,6 +55,12 @@ impl Timer {
     self.cycle_count
   }
 
+  /// Verification hook (add-only): the 16-bit divider phase
+  #[cfg(gb_dynarec_verif)]
+  pub fn verif_cycle_count(&self) -> u32 {
+    self.cycle_count
+  }
+
   pub fn set_counter(&mut self, value: u8) {
     self.counter = value;
   }
